@@ -132,4 +132,60 @@ theorem substList_eq_applySubstList (σ : Nat → Ty) (env : Env) :
         substList_eq_applySubstList σ env ss (fun p hp => h p (List.mem_append.2 (Or.inr hp)))]
 end
 
+/-! ### the monotype rendering is a prefix code -/
+
+mutual
+theorem codeBy_prefix (short : Nat → Nat) (hinj : ∀ a b, short a = short b → a = b) :
+    (t t' : Ty) → (r r' : List Nat) → Ty.codeBy short t ++ r = Ty.codeBy short t' ++ r' → t = t' ∧ r = r'
+  | .int, t', r, r', h => by cases t' <;> simp_all [Ty.codeBy]
+  | .float, t', r, r', h => by cases t' <;> simp_all [Ty.codeBy]
+  | .bool, t', r, r', h => by cases t' <;> simp_all [Ty.codeBy]
+  | .string, t', r, r', h => by cases t' <;> simp_all [Ty.codeBy]
+  | .void, t', r, r', h => by cases t' <;> simp_all [Ty.codeBy]
+  | .poly p, t', r, r', h => by cases t' <;> simp_all [Ty.codeBy]
+  | .nominal n ps, t', r, r', h => by
+    cases t' with
+    | nominal n' ps' =>
+      simp only [Ty.codeBy, List.cons_append, List.cons.injEq] at h
+      obtain ⟨_, hn, hl, hrest⟩ := h
+      have := hinj _ _ hn
+      subst this
+      obtain ⟨hp, hr⟩ := codeListBy_prefix short hinj ps ps' r r' hl hrest
+      exact ⟨by rw [hp], hr⟩
+    | _ => simp [Ty.codeBy] at h
+  | .func args out, t', r, r', h => by
+    cases t' with
+    | func args' out' =>
+      simp only [Ty.codeBy, List.cons_append, List.cons.injEq, List.append_assoc] at h
+      obtain ⟨_, hl, hrest⟩ := h
+      obtain ⟨ha, hr1⟩ := codeListBy_prefix short hinj args args' _ _ hl hrest
+      obtain ⟨ho, hr⟩ := codeBy_prefix short hinj out out' r r' hr1
+      exact ⟨by rw [ha, ho], hr⟩
+    | _ => simp [Ty.codeBy] at h
+  | .tuple es, t', r, r', h => by
+    cases t' with
+    | tuple es' =>
+      simp only [Ty.codeBy, List.cons_append, List.cons.injEq] at h
+      obtain ⟨_, hl, hrest⟩ := h
+      obtain ⟨he, hr⟩ := codeListBy_prefix short hinj es es' r r' hl hrest
+      exact ⟨by rw [he], hr⟩
+    | _ => simp [Ty.codeBy] at h
+
+theorem codeListBy_prefix (short : Nat → Nat) (hinj : ∀ a b, short a = short b → a = b) :
+    (ts ts' : List Ty) → (r r' : List Nat) → ts.length = ts'.length →
+      Ty.codeListBy short ts ++ r = Ty.codeListBy short ts' ++ r' → ts = ts' ∧ r = r'
+  | [], [], r, r', _, h => by simpa [Ty.codeListBy] using h
+  | [], _ :: _, _, _, hl, _ => by simp at hl
+  | _ :: _, [], _, _, hl, _ => by simp at hl
+  | t :: ts, t' :: ts', r, r', hl, h => by
+    simp only [Ty.codeListBy, List.append_assoc] at h
+    obtain ⟨ht, hr1⟩ := codeBy_prefix short hinj t t' _ _ h
+    obtain ⟨hts, hr⟩ := codeListBy_prefix short hinj ts ts' r r' (by simpa using hl) hr1
+    exact ⟨by rw [ht, hts], hr⟩
+end
+
+theorem code_injective (t t' : Ty) (h : t.code = t'.code) : t = t' := by
+  have := codeBy_prefix id (fun _ _ h => h) t t' [] [] (by simpa [Ty.code] using h)
+  exact this.1
+
 end Abra.Mono
